@@ -13,7 +13,7 @@ func TestC06(t *testing.T) {
 	mon.Main(t, mon.Check{
 		ID:    "C06",
 		Level: "exploration",
-		Rule:  "real gbn code in virtual time; a fault prefix (random per-packet drop/dup/delay for 5..120 virtual s, or scripted tail loss: the first transmission of the last packet of a burst is dropped and the application then goes silent) is followed by a reliable link whose latency is below the resend timeout. Families: random (as C01), tail-loss, and resend-timeout >= peer ping interval. Oracles in virtual time: (stall) at the horizon (fault end + 2h) with both ends open and an accepted message undelivered, nothing was delivered during the last 20 resend timeouts; (closure) with keepalive off no endpoint ever closes by itself; with keepalive on, once one end has closed the other end's calls fail too (all application goroutines return before the horizon); (quiescence) after everything was delivered, 10 resend timeouts (>=30 s) of observation show no non-ping DATA packet on either link and no growth of the resend timeout. A merely slow run (still delivering at the horizon) is inconclusive, not a violation. Non-trivial = at least one packet fault and one delivered message; distinct = wire-trace hash.",
+		Rule:  "real gbn code in virtual time; a fault prefix (random per-packet drop/dup/delay for 5..120 virtual s, or scripted tail loss: the first transmission of the last packet of a burst is dropped and the application then goes silent) is followed by a reliable link whose latency is below the resend timeout. Families: random (as C01), tail-loss, and resend-timeout >= peer ping interval. Oracles in virtual time: (stall) at the horizon (fault end + 2h) with both ends open and an accepted message undelivered, nothing was delivered during the last 20 resend timeouts; (closure) with keepalive off no endpoint ever closes by itself; with keepalive on, once one end has closed the other end's calls fail too (all application goroutines return before the horizon); (quiescence) after everything was delivered, 10 resend timeouts (>=30 s) of observation show no non-ping DATA packet on either link and no growth of the resend timeout. A merely slow run (still delivering at the horizon) is inconclusive, not a violation. A bubble that freezes (clock cannot advance) is repeated on the real clock and judged by the two-census mutex rule: gbn goroutines waiting for a lock for more than 5 s are an internal deadlock, i.e. a stall that nothing will end. Non-trivial = at least one packet fault and one delivered message; distinct = wire-trace hash.",
 		Assumptions: []string{
 			"unbounded eventually is restated as bounded progress on the virtual clock",
 			"transport preserves per-direction order; faults start after a clean handshake",
@@ -26,6 +26,11 @@ func TestC06(t *testing.T) {
 		},
 		MinEvals: 100,
 		Run:      runC06,
+		Finish: func(sh *mon.Shard) {
+			if eng.AnyFrozen.Load() {
+				mon.FlushAndExit(sh)
+			}
+		},
 	})
 }
 
@@ -105,7 +110,30 @@ func runC06(c *mon.Case) {
 		sc.Quiesce = 30 * time.Second
 	}
 	sc.QuiesceWait = 30 * time.Minute
-	r := eng.RunScen(c.T, sc, eng.Hooks{OnLeak: leakHookInconc(c, sc)})
+	r, frozen := eng.RunScenGuarded(c.T, sc, eng.Hooks{OnLeak: leakHookInconc(c, sc)}, 90*time.Second)
+	if frozen {
+		// the bubble's clock cannot advance: either something harmless
+		// holds a mutex across a timed wait, or the connection has
+		// deadlocked internally - a stall that no timer will ever end
+		budget := sc.FaultC2S.Until
+		if sc.FaultS2C.Until > budget {
+			budget = sc.FaultS2C.Until
+		}
+		stuck := eng.DeadlockProbe(sc, eng.Hooks{}, budget+30*time.Second)
+		if len(stuck) > 0 {
+			var st []string
+			for _, g := range stuck {
+				st = append(st, g.Stack)
+			}
+			c.Shard.Violate("stall|deadlock|"+family,
+				fmt.Sprintf("the connection deadlocked internally: %d goroutine(s) of gbn have been waiting for a mutex for more than 5 s of real time (first in %s); data is pending and no timer can end this [%s]", len(stuck), stuck[0].TopFrame(), sc.Conf.String()),
+				map[string]any{"scenario": scenReplay(sc, nil), "stacks": st})
+		} else {
+			c.Shard.Inconc(fmt.Sprintf("case %d: the virtual-time bubble froze and the real-time repetition showed no deadlock", c.Idx))
+		}
+		c.Shard.Eval("")
+		return
+	}
 	if r.ConnErrC != nil || r.ConnErrS != nil {
 		c.Shard.Inconc(fmt.Sprintf("handshake failed: %v / %v", r.ConnErrC, r.ConnErrS))
 		return
